@@ -62,7 +62,8 @@ func driveC03(c *Ctx) {
 	draft7 := c.W(4) == 0
 	dangling := c.W(5) == 0
 	reloc := !dangling && c.W(6) == 0
-	u := GenUniverse(c, UniOpts{Draft7: draft7, Dangling: dangling, Relocatable: reloc})
+	defaults := !dangling && c.W(3) == 0
+	u := GenUniverse(c, UniOpts{Draft7: draft7, Dangling: dangling, Relocatable: reloc, Defaults: defaults, BadDefault: defaults && c.W(4) == 0})
 	desc := JSON(u.Describe())
 	c.In("universe %s", desc)
 	c.Distinct("%s", desc)
@@ -102,6 +103,9 @@ func driveC03(c *Ctx) {
 	}
 	if u.BaseURI == "" {
 		c.Probe("empty-base-uri")
+	}
+	if u.HasDefaults && u.BadDefaultAt == nil {
+		c.Probe("resolved-with-ValidateDefaults")
 	}
 	for _, n := range u.Nodes {
 		for _, e := range []*Edge{n.Next[0], n.Next[1], n.InPlace} {
@@ -174,7 +178,7 @@ func (w *worldCheck) freshRoot() (*jsonschema.Schema, bool) {
 
 func (w *worldCheck) resolve(root *jsonschema.Schema, plan *FaultPlan, nilLoader bool) (*jsonschema.Resolved, error, *LoaderLog, OpResult) {
 	log := &LoaderLog{}
-	opts := &jsonschema.ResolveOptions{BaseURI: w.u.BaseURI}
+	opts := &jsonschema.ResolveOptions{BaseURI: w.u.BaseURI, ValidateDefaults: w.u.HasDefaults && w.u.BadDefaultAt == nil}
 	if !nilLoader {
 		opts.Loader = w.u.LoaderFor(w.c, plan, log)
 	}
@@ -257,6 +261,20 @@ func (w *worldCheck) check(si int, plans []*FaultPlan, nilLoader bool) {
 		return
 	}
 	rootFP := Fingerprint(root)
+	if bad := u.BadDefaultAt; bad != nil {
+		// the root document declares one default that does not validate against its subschema
+		var verr error
+		opts := &jsonschema.ResolveOptions{BaseURI: u.BaseURI, ValidateDefaults: true}
+		if !nilLoader {
+			opts.Loader = u.LoaderFor(c, nil, &LoaderLog{})
+		}
+		r := Op(func() { _, verr = root.Resolve(opts) })
+		c.CheckOp("Resolve(ValidateDefaults)", r)
+		if !r.Panicked && verr == nil {
+			c.Fail("C15/validate-defaults", "remote-universe", "schedule %d: Resolve(ValidateDefaults) succeeded although hop %s of the root document declares the default %s", si, bad.Marker, JSON(bad.Default))
+		}
+		c.Probe("bad-default-in-root-document")
+	}
 	res, err, log, r := w.resolve(root, nil, nilLoader)
 	if si == 0 {
 		c.Out("healthy resolve: %v err=%v loads=%v", r, err != nil, log.URIs)
